@@ -30,6 +30,7 @@ type Obligation struct {
 	Func    string
 	Note    string
 	LastRet bool
+	noPathSplit bool
 }
 
 type VC struct {
@@ -45,6 +46,7 @@ type VC struct {
 	usesQ    bool
 	strLits  map[string]*Term
 	strVals  map[string]string
+	defs     map[string]*Term
 	typeTags map[string]*Term
 	assumes  []string // textual notes of assumptions used (trusted models, etc.)
 	dropped  map[string]bool
@@ -128,6 +130,10 @@ func (vc *VC) Def(prefix string, t *Term) *Term {
 	vc.noteSort(t.Sort)
 	vc.noteTerm(t)
 	vc.lines = append(vc.lines, fmt.Sprintf("(define-fun %s () %s %s)", n, t.Sort, t.String()))
+	if vc.defs == nil {
+		vc.defs = map[string]*Term{}
+	}
+	vc.defs[n] = t
 	return Sym(n, t.Sort)
 }
 
@@ -179,6 +185,32 @@ func (vc *VC) Oblige(o *Obligation) {
 			vc.Oblige(&c)
 		}
 		return
+	}
+	// split by the disjuncts of the reachability condition (one query per incoming path of a join)
+	if !o.WantSat && !o.noPathSplit && vc.quantDepth == 0 {
+		// find a conjunct of the guard that is (defined as) a disjunction
+		conj := []*Term{o.Guard}
+		if o.Guard.Op == "and" && len(o.Guard.Bound) == 0 {
+			conj = o.Guard.Args
+		}
+		for _, c := range conj {
+			g := c
+			if g.IsLeaf() {
+				if d, ok := vc.defs[g.Op]; ok {
+					g = d
+				}
+			}
+			if g.Op == "or" && len(g.Bound) == 0 && len(g.Args) > 1 && len(g.Args) <= 6 {
+				for i, d := range g.Args {
+					cp := *o
+					cp.Guard = And(o.Guard, d)
+					cp.Name = fmt.Sprintf("%s/path%d", o.Name, i+1)
+					cp.noPathSplit = true
+					vc.Oblige(&cp)
+				}
+				return
+			}
+		}
 	}
 	o.Prefix = len(vc.lines)
 	vc.noteTerm(o.Goal)
@@ -730,4 +762,54 @@ func (vc *VC) StrCat(a, b *Term) *Term {
 	vc.declare("strcat", "(declare-fun strcat (Str Str) Str)")
 	vc.declare("strlen", "(declare-fun strlen (Str) Int)")
 	return App("strcat", SStr, a, b)
+}
+
+// distinctRefs: syntactically distinct allocation results / literals.
+func distinctRefs(a, b *Term) bool {
+	if !a.IsLeaf() || !b.IsLeaf() || a.Op == b.Op {
+		return false
+	}
+	isFresh := func(t *Term) bool { return strings.HasPrefix(t.Op, "ref.") || strings.HasPrefix(t.Op, "funcval!") }
+	if isFresh(a) && isFresh(b) {
+		return true
+	}
+	av, aok := a.IntVal()
+	bv, bok := b.IntVal()
+	if aok && bok {
+		return av.Cmp(bv) != 0
+	}
+	// a fresh reference is positive, hence distinct from nil
+	if (isFresh(a) && bok && bv.Sign() == 0) || (isFresh(b) && aok && av.Sign() == 0) {
+		return true
+	}
+	return false
+}
+
+// SelectThrough resolves select over chains of stores (looking through named definitions).
+func (vc *VC) SelectThrough(arr, idx *Term) *Term {
+	cur := arr
+	for depth := 0; depth < 64; depth++ {
+		t := cur
+		if t.IsLeaf() {
+			d, ok := vc.defs[t.Op]
+			if !ok {
+				break
+			}
+			t = d
+		}
+		if t.Op == "store" && len(t.Args) == 3 {
+			if sameTerm(t.Args[1], idx) {
+				return t.Args[2]
+			}
+			if distinctRefs(t.Args[1], idx) {
+				cur = t.Args[0]
+				continue
+			}
+		}
+		break
+	}
+	if cur != arr {
+		return Select(cur, idx)
+	}
+	return Select(arr, idx)
 }
